@@ -114,6 +114,14 @@ def mutations():
     def _(d): F_(T_(d, "Root"), "OneA")["params"].append(param("b", "Boolean!", B(True)))
     @m("default_enum_literal")
     def _(d): F_(T_(d, "Root"), "OneA")["params"][0] = param("x", "Int", E("FOO"))
+    @m("edges_of_every_shape_ok")           # T, T!, [T], [T]!, [T!], [T!]! as edges and as entrypoints
+    def _(d):
+        for k, t in enumerate(("A", "A!", "[A]", "[A]!", "[A!]", "[A!]!")):
+            T_(d, "B")["fields"].append(field(f"shape{k}", t)); T_(d, "Root")["fields"].append(field(f"Entry{k}", t, [param("p", "[Int]", L([I(1), NULL]))] if k == 3 else []))
+    @m("properties_of_every_shape_ok")
+    def _(d):
+        for k, t in enumerate(("Int", "Int!", "[Int]", "[Int]!", "[Int!]", "[Int!]!", "[[String]!]", "[[Float!]]!")):
+            T_(d, "B")["fields"].append(field(f"prop{k}", t))
     @m("nested_list_edge")
     def _(d): T_(d, "B")["fields"].append(field("grid", "[[A!]]"))
     @m("nested_list_property_ok")
